@@ -102,16 +102,37 @@ PendingBad(r) ==
         ~(/\ NDeq(r, j) = Cardinality(AccIdx(r, j))
           /\ \A k \in Idx(r) : (k > LastOkCommit(r, j) /\ k < j) => Lines[k].ev # "batched")}
 
+\* An item error is attributed to its CAUSE: the harness datastore logs `readfail` from inside the failing
+\* call, i.e. in the worker goroutine right before the worker's `batcherr` line.
+PrevWorkerLine(r, j) == {k \in Idx(r) : k < j /\ Lines[k].ev \in WorkerEvs /\
+                                        \A m \in Idx(r) : (m < j /\ Lines[m].ev \in WorkerEvs) => m <= k}
+InjectedErr(r, j) == \E k \in PrevWorkerLine(r, j) : Lines[k].ev = "readfail"
+BatchErrIdx(r) == {j \in Idx(r) : Lines[j].ev = "batcherr"}
+
 FaultClass(r) ==
-    IF \E j \in Idx(r) : Lines[j].ev = "batcherr" THEN "item-error"
+    IF BatchErrIdx(r) # {} THEN (IF \A j \in BatchErrIdx(r) : InjectedErr(r, j)
+                                  THEN "item-error:injected-store-read-fault"
+                                  ELSE "item-error:no-fault-injected")
     ELSE IF \E j \in Idx(r) : Lines[j].ev = "commit" /\ Lines[j].reason = "age" /\ ~Lines[j].ok THEN "age-commit-failed"
     ELSE IF \E j \in Idx(r) : Lines[j].ev = "commit" /\ ~Lines[j].ok THEN "size-commit-failed"
     ELSE IF \E j \in Idx(r) : Lines[j].ev = "storefail" THEN "write-failed"
     ELSE IF \E j \in Idx(r) : Lines[j].ev = "readfail" THEN "read-failed"
     ELSE "nofault"
 
+\* The worker takes the accepted operations in FIFO order: the n-th `batched`/`batcherr` line belongs to the
+\* n-th accepted operation. A lost-operation observation is explained by the injected faults iff it shows
+\* exactly the accepted operations minus those whose add failed with an injected read fault.
+DeqSeq(r, j) == SortedSeq({k \in Idx(r) : k < j /\ Lines[k].ev \in {"batched", "batcherr"}})
+KeptOps(r, j) == LET acc == AcceptedSeq(r, j) dq == DeqSeq(r, j)
+                     keep == {n \in 1..Len(acc) : ~(n <= Len(dq) /\ Lines[dq[n]].ev = "batcherr" /\ InjectedErr(r, dq[n]))}
+                     ks == SortedSeq(keep)
+                 IN [n \in 1..Len(ks) |-> acc[ks[n]]]
+LostByInjectedDrop(r) == {j \in LostBad(r) : /\ WellFormedPins(Lines[j].pins)
+                                              /\ Len(DeqSeq(r, j)) = Len(AcceptedSeq(r, j))
+                                              /\ ObsPins(Lines[j].pins) = ApplyAll(EmptyPinset, KeptOps(r, j))}
+
 Verdict(r) == [run |-> Hdr(r).run, fclass |-> FaultClass(r),
-               lost |-> LostBad(r), hook |-> HookBad(r), refuse |-> RefuseBad(r), err |-> ErrBad(r),
+               lost |-> LostBad(r), lostdrop |-> LostByInjectedDrop(r), hook |-> HookBad(r), refuse |-> RefuseBad(r), err |-> ErrBad(r),
                commit |-> CommitBad(r), pending |-> PendingBad(r), curdrift |-> CurDrift(r),
                first |-> Starts[r], last |-> EndOf(r)]
 
